@@ -12,7 +12,9 @@ CONSTANTS
   Ends = {"close", "forget", "abandon"}
   Writers = TRUE
   MaxOps = 2
+  Parking = FALSE
   ResetOnOpen = FALSE
+  ResetOnStart = TRUE
   RegisterOnReach = FALSE
   EndChecksOnError = FALSE
   LogCalls = FALSE
